@@ -138,7 +138,7 @@ func c16(c *q.Ctx) {
 	}
 	ip := c.Fn("bcs/consensus/pow::(*PoWConsensus).IsProofed")
 	if ip != nil {
-		hash := "local<Int>"
+		hash := "big.NewInt(0){SetBytes(p1)}"
 		c.Guard(ip, q.Cond{Canon: "(1 == big.(*Int).Cmp(" + hash + ",big.NewInt(1){Lsh(self,(256 - p2))}))", Sense: true}, q.ToSuccess(), q.Opt{})
 		c.Guard(ip, q.Cond{Canon: "(1 == big.(*Int).Cmp(" + hash + ",pow.SetCompact(p2)#0))", Sense: true}, q.ToSuccess(), q.Opt{})
 		c.Guard(ip, q.Cond{Canon: "pow.SetCompact(p2)#1", Sense: true}, q.ToSuccess(), q.Opt{})
